@@ -23,6 +23,7 @@ Structural clauses decided:
 from __future__ import annotations
 
 import ast
+import re
 
 from ..core import AnalysisError, dotted, norm_src
 from .. import deriv, mirror, protocol, support, tables, twobody
@@ -183,8 +184,77 @@ def signed_velocity_jacobian(ctx, rule="C05.R14"):
                     "about the joint point of body 1 enters with the wrong sign as soon as the joint points are apart (body 2 has slid along a free direction)", f"{BASE}:{st.lineno}")
 
 
+def time_derivative_rows(ctx, rule="C05.R15"):
+    """g_ddot is d/dt g_dot (K19).  Both per-axis rows of the projected joints are brought to the bracket normal form - integer polynomials in
+    dot(a, b) and det[a, b, c] of the atomic vectors, nested cross products removed by BAC-CAB / Lagrange - and the time derivative of the
+    g_dot row is formed by the product rule with the kinematic table  r_OJk -> v_Jk,  v_Jk -> a_Jk,  Omegak -> Psik,  A_IJk[:, x] ->
+    Omegak x A_IJk[:, x] (the axis is fixed to body k).  The code's g_ddot row must be the same function of the vectors; equality is decided
+    modulo the syzygies by exact evaluation of the difference at integer points, so a rewrite with any vector identity is accepted and a
+    wrong sign / factor of the centripetal, Coriolis or Euler term is a nonzero polynomial with a witness point."""
+    from .. import brackets as B
+    rep = ctx.rep
+    fg = ctx.repo.get(BASE, "ProjectedPositionOrientationBase.g_dot")
+    fa = ctx.repo.get(BASE, "ProjectedPositionOrientationBase.g_ddot")
+    VEC = {"r_OJ1", "r_OJ2", "v_J1", "v_J2", "a_J1", "a_J2", "Omega1", "Omega2", "Psi1", "Psi2"}
+
+    def atom(e):
+        if isinstance(e, ast.Call) and isinstance(e.func, ast.Attribute) and isinstance(e.func.value, ast.Name) and e.func.value.id == "self" and e.func.attr in VEC:
+            return e.func.attr
+        if isinstance(e, ast.Subscript) and isinstance(e.slice, ast.Tuple) and len(e.slice.elts) == 2 and isinstance(e.slice.elts[0], ast.Slice) \
+                and e.slice.elts[0].lower is None and e.slice.elts[0].upper is None:
+            v = e.value
+            n = v.id if isinstance(v, ast.Name) else (v.func.attr if isinstance(v, ast.Call) and isinstance(v.func, ast.Attribute) else None)
+            if n in ("A_IJ1", "A_IJ2"):
+                return f"{n}[{norm_src(e.slice.elts[1])}]"
+        return None
+
+    def table(S):
+        t = {"r_OJ1": B.vatom("v_J1"), "r_OJ2": B.vatom("v_J2"), "v_J1": B.vatom("a_J1"), "v_J2": B.vatom("a_J2"),
+             "Omega1": B.vatom("Psi1"), "Omega2": B.vatom("Psi2")}
+        for a in B.atoms_of(S):
+            if a.startswith("A_IJ1["):
+                t[a] = B.vcross(B.vatom("Omega1"), B.vatom(a))
+            elif a.startswith("A_IJ2["):
+                t[a] = B.vcross(B.vatom("Omega2"), B.vatom(a))
+        return t
+
+    def row_stores(fn, name):
+        out = []
+        for st in ast.walk(fn):
+            if isinstance(st, ast.Assign) and len(st.targets) == 1 and isinstance(st.targets[0], ast.Subscript) and norm_src(st.targets[0].value) == name:
+                out.append(st)
+        return out
+    C = f"{BASE}:ProjectedPositionOrientationBase.g_ddot"
+    by_idx = {re.sub(r"\s", "", norm_src(st.targets[0].slice)): st for st in row_stores(fg, "g_dot")}
+    n = 0
+    for st in row_stores(fa, "g_ddot"):
+        idx = re.sub(r"\s", "", norm_src(st.targets[0].slice))
+        sg = by_idx.get(idx)
+        if sg is None:
+            rep.ok(rule, C, f"row g_ddot[{idx}]: no g_dot row with the same index expression (no verdict)", verdict="unknown", trivial=True)
+            continue
+        vg, va = B.Bracketer(fg, atom).ev(sg.value), B.Bracketer(fa, atom).ev(st.value)
+        if vg is None or va is None or vg[0] != "s" or va[0] != "s":
+            rep.ok(rule, C, f"row g_ddot[{idx}]: not a polynomial in dot / cross products of the kinematic vectors (no verdict)", verdict="unknown", trivial=True)
+            continue
+        want = B.ddt(vg[1], table(vg[1]))
+        same, pt = B.same_function(want, va[1])
+        if same:
+            n += 1
+            rep.ok(rule, C, f"row g_ddot[{idx}] is the time derivative of g_dot[{idx}] ({len(want)} bracket monomials)")
+        else:
+            D = B.sadd(va[1], want, -1)
+            rep.bad(rule, C, st, f"row g_ddot[{idx}] is not the time derivative of g_dot[{idx}]: g_ddot - d/dt g_dot = {B.show(D)[:260]} "
+                    f"(nonzero e.g. at {dict(list(pt.items())[:3])}...) - the acceleration-level constraint the solvers and the consistent initial accelerations use "
+                    "disagrees with the velocity-level one as soon as body 1 rotates", f"{BASE}:{st.lineno}")
+    if n < 2:
+        rep.ok(rule, C, f"only {n} rows decided", verdict="unknown", trivial=True)
+
+
 def run(ctx):
     rep = ctx.rep
+    rep.rule("C05.R15", "projected joints: every row of g_ddot is the time derivative of the same row of g_dot as a polynomial in dot / triple products of the kinematic vectors (K19 bracket normal form, exact coefficients, equality modulo vector identities)", 2)
+    time_derivative_rows(ctx)
     rep.rule("C05.R12", "dependence monotonicity (K13) over every primal/derivative pair of K5: a stated derivative reads no datum its primal does not read", 15)
     from .. import depmono as _dm
     _dm.check_k5_pairs(ctx, "C05.R12", ['PositionOrientationBase', 'ProjectedPositionOrientationBase', 'FixedDistance'])
@@ -409,4 +479,18 @@ NEUTRAL += [
     dict(id="c05-n-r14", canary=True, what="projected joints: body-1 Jacobian hoisted as J_J1 - skew(r) J_R1 (correct)", file=BASE,
          old="                W_g[:nu1, i] = (\n                    -A_IJ1[:, ax] @ J_J1 + cross3(A_IJ1[:, ax], r_J1J2) @ J_R1\n                )\n",
          new="                W_g[:nu1, i] = -A_IJ1[:, ax] @ (J_J1 - ax2skew(r_J1J2) @ J_R1)\n"),
+]
+
+_ROWS = '            for i, ax in enumerate(self.constrained_axes_displacement):\n                e_dot = cross3(Omega1, A_IJ1[:, ax])\n                g_ddot[i] = (\n                    A_IJ1[:, ax] @ a_J1J2\n                    + v_J1J2 @ e_dot\n                    + cross3(A_IJ1[:, ax], r_J1J2) @ Psi1\n                    + cross3(A_IJ1[:, ax], v_J1J2) @ Omega1\n                    + cross3(e_dot, r_J1J2) @ Omega1\n                )\n'
+MUTANTS += [
+    dict(id="c05-r15-seed", canary=True, what="[seeded by sub-agent] projected joints: g_ddot rewritten as e . a_rel with the centripetal term subtracted (sign)", file=BASE,
+         old=_ROWS, new='            a_rel = (\n                a_J1J2\n                - cross3(Psi1, r_J1J2)\n                - cross3(Omega1, cross3(Omega1, r_J1J2))\n                - 2 * cross3(Omega1, v_J1J2)\n            )\n            for i, ax in enumerate(self.constrained_axes_displacement):\n                g_ddot[i] = A_IJ1[:, ax] @ a_rel\n', expect="C05.R15"),
+    dict(id="c05-r15-coriolis", what="projected joints: g_ddot rewritten as e . a_rel with the Coriolis factor 2 dropped", file=BASE,
+         old=_ROWS, new='            a_rel = (\n                a_J1J2\n                - cross3(Psi1, r_J1J2)\n                + cross3(Omega1, cross3(Omega1, r_J1J2))\n                - cross3(Omega1, v_J1J2)\n            )\n            for i, ax in enumerate(self.constrained_axes_displacement):\n                g_ddot[i] = A_IJ1[:, ax] @ a_rel\n', expect="C05.R15"),
+    dict(id="c05-r15-rot", what="projected joints: rotational g_ddot row uses Omega1 for the rate of the body-2 axis", file=BASE,
+         old="cross3(cross3(Omega1, e_a), e_b) + cross3(e_a, cross3(Omega2, e_b))", new="cross3(cross3(Omega1, e_a), e_b) + cross3(e_a, cross3(Omega1, e_b))", expect="C05.R15"),
+]
+NEUTRAL += [
+    dict(id="c05-n-r15", canary=True, what="projected joints: g_ddot rewritten as e . a_rel with the correct relative acceleration (vector identities only)", file=BASE,
+         old=_ROWS, new='            a_rel = (\n                a_J1J2\n                - cross3(Psi1, r_J1J2)\n                + cross3(Omega1, cross3(Omega1, r_J1J2))\n                - 2 * cross3(Omega1, v_J1J2)\n            )\n            for i, ax in enumerate(self.constrained_axes_displacement):\n                g_ddot[i] = A_IJ1[:, ax] @ a_rel\n'),
 ]
